@@ -254,8 +254,10 @@ func bigBody(gen string, n int) []byte {
 		if p < 1 {
 			p = 1
 		}
-		for i := range b {
-			b[i] = byte(i % p * 37)
+		for i := 0; i < p && i < n; i++ {
+			b[i] = byte(i * 37)
+		}
+		for i := p; i < n; i += copy(b[i:], b[:i]) { // doubling copy: same bytes as b[i] = byte(i % p * 37)
 		}
 	case 'r':
 		x := uint64(atoi(gen[1:]))*0x9E3779B97F4A7C15 + 0x1234567
